@@ -265,6 +265,7 @@ int main(int argc, char** argv) {
             }
             status ps = status::OK;
             if (cov) ps = put<char>(token, st, k, v.data(), v.size());
+            if (cov && ps == status::OK) want_align[{st, k}] = 1;      // default alignment of put<char>
             bool det = false;
             for (auto& e : nv)
                 if (e.second->get_stable_version() != e.first) det = true;
